@@ -62,12 +62,11 @@ def run(rep):
                               {'type': c['type'], 'ops': c['ops'][:oi + 1], 'observed_children': word, 'model_predicts': False})
         # --- correspondence implementation <-> M_py on the C01 projection
         diffs = corp.correspondence(proj)
-        for ci, oi in diffs[:5]:
-            if not any(w[0] == ci for w, _ in bad):
-                c = corp.cases[ci]
-                rep.violation('implementation and faithful model disagree on the final check of %s' % c['type'],
-                              {'correspondence': 'impl<->M_py (C01 projection)', 'type': c['type'], 'ops': c['ops'][:oi + 1],
-                               'impl': proj(c['ops'][oi], corp.impl[ci][oi]), 'model': proj(c['ops'][oi], corp.model[ci][oi])}, found_input=False)
+        broken = [(ci, oi) for ci, oi in diffs if not any(w[0] == ci for w, _ in bad)][:6]
+        if broken:
+            matcher.report_broken_correspondence(rep, m, [(corp.cases[ci]['type'], corp.cases[ci]['ops'][:oi + 1]) for ci, oi in broken], sweep_failures,
+                                                 'impl<->M_py (C01 projection)',
+                                                 [{'impl': proj(corp.cases[ci]['ops'][oi], corp.impl[ci][oi]), 'model': proj(corp.cases[ci]['ops'][oi], corp.model[ci][oi])} for ci, oi in broken])
         # --- correspondence with the specification machines on their classes
         sc, bc = matcher.machine_corpus(rep, m, corp.classes, 30 if quick else 200, 12 if quick else 20, rep.seed)
         if not quick:
